@@ -131,25 +131,25 @@ def oracle_state(o, hist, cutoff, pos=None):
     # position index = place in the list
     for i, c in enumerate(cells):
         if c["lid"] != i:
-            viol.append("cell at list position %d (id %d) has local id %d" % (i, c["id"], c["lid"]))
+            viol.append(("the position index (local id) of a cell differs from its place in the population list", "cell at list position %d (id %d) has local id %d" % (i, c["id"], c["lid"])))
             base_ok = False
             break
     ids = [c["id"] for c in cells]
     if len(set(ids)) != len(ids):
-        viol.append("duplicate persistent ids %r" % sorted(ids))
+        viol.append(("persistent cell ids are not unique", "ids %r" % sorted(ids)))
         base_ok = False
     if any(i >= o["counter"] for i in ids):
-        viol.append("id >= counter: ids %r counter %d" % (ids, o["counter"]))
+        viol.append(("a persistent cell id is not below the id counter", "ids %r counter %d" % (ids, o["counter"])))
         base_ok = False
     # never reused
     if hist is not None:
         for i in ids:
             if i in hist["dead"]:
-                viol.append("id %d re-appears after it had left the population" % i)
+                viol.append(("a persistent cell id is reused", "id %d re-appears after it had left the population" % i))
             elif i not in hist["alive"] and i < hist["counter"]:
-                viol.append("id %d appears although the counter had already passed it (counter was %d)" % (i, hist["counter"]))
+                viol.append(("a persistent cell id is reused", "id %d appears although the counter had already passed it (counter was %d)" % (i, hist["counter"])))
         if o["counter"] < hist["counter"]:
-            viol.append("counter went back from %d to %d" % (hist["counter"], o["counter"]))
+            viol.append(("the id counter went back", "from %d to %d" % (hist["counter"], o["counter"])))
         for i in list(hist["alive"]):
             if i not in ids:
                 hist["dead"].add(i)
@@ -160,13 +160,13 @@ def oracle_state(o, hist, cutoff, pos=None):
         hist["counter"] = max(hist["counter"], o["counter"])
     objs = [c["obj"] for c in cells]
     if len(set(objs)) != len(objs):
-        viol.append("the same cell object is twice in the list")
+        viol.append(("the same cell object is twice in the list", ""))
         base_ok = False
     nfr = nft_bad = 0
     for i, c in enumerate(cells):
         nodes, faces = c["nodes"], c["faces"]
         if c["nft"] < (2 if c["kind"] == 0 else 1):
-            viol.append("cell type of cell %d (kind %d) has %d face types" % (c["id"], c["kind"], c["nft"]))
+            viol.append(("a cell type admitted at start-up has fewer face types than its cell class writes", "cell id %d (kind %d) has %d face types" % (c["id"], c["kind"], c["nft"])))
             base_ok = False
         for k, nd in enumerate(nodes):
             if nd[0] != k:
@@ -179,12 +179,12 @@ def oracle_state(o, hist, cutoff, pos=None):
                 continue
             nfr += 1
             if ow != c["obj"] + 1:
-                viol.append("face %d of cell %d: owner pointer designates %s, not its cell" % (j, c["id"], "null" if ow == 0 else "object %d" % (ow - 1)))
+                viol.append(("the owner pointer of a face does not designate its cell", "face %d of cell id %d: owner is %s" % (j, c["id"], "null" if ow == 0 else "object %d" % (ow - 1))))
                 base_ok = False
             if ty >= c["nft"]:
                 nft_bad += 1
                 if nft_bad <= 1:
-                    viol.append("face %d of cell %d has face-type index %d but the cell type has %d face types" % (j, c["id"], ty, c["nft"]))
+                    viol.append(("the face-type index of a face is outside the face-type table of its cell type", "face %d of cell id %d has index %d, the cell type has %d face types" % (j, c["id"], ty, c["nft"])))
                 base_ok = False
             for q in (n1, n2, n3):
                 if q >= len(nodes) or not nodes[q][1]:
@@ -214,10 +214,11 @@ def oracle_state(o, hist, cutoff, pos=None):
             ok = target_ok(c2, n2) and c2 != i
             if not ok:
                 coup_ok = False
-                if pt == 1 and len(viol) < 6:
-                    viol.append("node %d of the cell at position %d (id %d) is coupled to (cell %d, node %d): %s" % (
+                if pt == 1:
+                    viol.append(("a stored coupling does not designate a live node of another cell of the list",
+                                 "node %d of the cell at position %d (id %d) is coupled to (cell %d, node %d): %s" % (
                         k, i, c["id"], c2, n2,
-                        "no such cell (%d cells)" % n if c2 >= n else "its own cell" if c2 == i else "no such node" if n2 >= len(cells[c2]["nodes"]) else "an unused node"))
+                        "no such cell (%d cells)" % n if c2 >= n else "its own cell" if c2 == i else "no such node" if n2 >= len(cells[c2]["nodes"]) else "an unused node")))
             elif pt == 1 and pos is not None:
                 a = pos[offs[i] + k]
                 b = pos[offs[c2] + n2]
@@ -225,7 +226,8 @@ def oracle_state(o, hist, cutoff, pos=None):
                 if d > 3.0 * cutoff:
                     far += 1
                     if far <= 1:
-                        viol.append("node %d of cell position %d is coupled to (cell %d, node %d) which is %.3g away (adhesion cut-off %.3g): not the intended cell" % (k, i, c2, n2, d, cutoff))
+                        viol.append(("a stored coupling designates a node far beyond the adhesion cut-off (not a node of the intended cell)",
+                                     "node %d of the cell at position %d is coupled to (cell %d, node %d) which is %.3g away (cut-off %.3g)" % (k, i, c2, n2, d, cutoff)))
             if i > c2:
                 npost += 2
                 post_ok = post_ok and target_ok(c2, n2)
@@ -392,27 +394,25 @@ def analyse(sc, rec, status, errtail, drv, stats, V, widen=False):
             stats["use_states"] += 1
             stats["couplings"] += sum(1 for c in o["cells"] for nd in c["nodes"] if nd[1] and nd[2] is not None)
             stats["derefs"] += res["post"] + res["pol"] + res["forces"] + res["int"]
-            if not res["coup_ok"] and not any("coupled to" in x for x in viol):
-                viol.append("a stored coupling does not designate a live node of another cell")
         else:
-            viol = [x for x in viol if "coupled to" not in x]       # couplings are only claimed where they are used
-        for x in viol:
-            key = x.split(":")[0][:60]
-            if key in seen_what:
+            viol = [x for x in viol if "coupling" not in x[0]]       # couplings are only claimed where they are used
+        point = ["after the division round", "after the contact phase", "end of the iteration", "after start-up"][o["pt"]]
+        for cat, detail in viol:
+            if cat in seen_what:
                 continue
-            seen_what.add(key)
+            seen_what.add(cat)
             nfail += 1
-            V.fail_input("iteration %d, point %s: %s" % (o["it"], ["after the division round", "after the contact phase", "end of the iteration", "after start-up"][o["pt"]], x),
-                         {"line": line, "iteration": o["it"], "point": o["pt"]}, key=None)
+            V.fail_input(cat, {"line": line, "iteration": o["it"], "point": point, "detail": detail}, key=None)
         for x in assum[:1]:
             if "assum" not in seen_what:
                 seen_what.add("assum")
                 nfail += 1
-                V.fail_input("mesh contract assumed by the theorems does not hold: %s" % x, {"line": line, "iteration": o["it"], "point": o["pt"]}, key=None)
+                V.fail_input("the mesh contract assumed by the theorems does not hold (node ids / face nodes)",
+                             {"line": line, "iteration": o["it"], "point": point, "detail": x}, key=None)
         checks.append("check %d %d %s" % (o["pt"], nextobj, o["raw"]))
     if status.startswith("crash") or status == "not-run":
         nfail += 1
-        V.fail_input("the run ended abnormally (%s): %s" % (status, " ".join(errtail.split())[-500:]), {"line": line}, key=None)
+        V.fail_input("the run of the real solver ended abnormally (sanitizer report / crash)", {"line": line, "status": status, "detail": " ".join(errtail.split())[:700]}, key=None)
     # events actually exercised
     for it, at in evs.items():
         stats["div_attempts"] += len(at)
@@ -547,7 +547,7 @@ def replay(ctx):
     print("scenario:", line)
     print("status:", status, "| states observed:", stats["states"])
     for c in V.concrete[:8]:
-        print(" -", c["what"])
+        print(" - %s | %s" % (c["what"], c["input"].get("detail", "")))
     if nf:
         print("VIOLATION property=C08 replay=%s" % ctx.get("replay_path", "-"))
         return 1
